@@ -52,11 +52,19 @@ ASSUMPTIONS = [
     "gain read off G = fftn(out)/fftn(in) on the bins that carry input (uncertainty tau(k) = 1e-9 + eta*max|F|/|F(k)| <= 1e-3; "
     "eta = 1e-12 for float64/integer maps, 1e-6 for float32 maps); since the filters return np.real(ifftn(.)) this is the "
     "k <-> -k average of the transfer function, i.e. what the user receives",
-    "soft edge: '1 inside cutoff-4s-1 / 0 outside cutoff+4s+1' is judged up to 1.2e-3 = mass of an isotropic 3-D Gaussian beyond "
-    "4 sigma (a Gaussian edge cannot do better: the unchanged code is off by up to 2.3e-4, e.g. box 31, cut 13, sigma 3, k = 0) "
-    "and to 1e-9 beyond sqrt(3)*(4s+1); 'non-increasing in between' is judged along lattice rays from the origin and only when the "
-    "cutoff ball fits into the box on every axis (cut <= min(N)//2; always true for cubic boxes), 'depends on the "
-    "radius' as invariance under swaps of equal axes and single-index sign flips when cut+4s+1 < min(N)/2 (DESIGN 4/C12)",
+    "soft edge, derivation of the tolerances: the edge is a voxelised ball blurred by a Gaussian of width s, so a bin at distance "
+    ">= 4s+1 from the edge can differ from its plateau by at most the mass of an isotropic 3-D Gaussian outside radius 4 sigma, "
+    "erfc(4/sqrt2) + sqrt(2/pi)*4*exp(-8) = 1.134e-3 (the per-axis truncated separable kernel has a CUBE support, its corners lie "
+    "outside the 4-sigma ball): '1 inside cutoff-4s-1 / 0 outside cutoff+4s+1' is judged to 1.2e-3 (1.134e-3 + kernel "
+    "renormalisation; the unchanged code is off by up to 2.3e-4, e.g. box 31^3, cut 13, sigma 3, k = 0: DESIGN's 1e-4 would be a false "
+    "alarm) and to 1e-9 for r <= cut-sqrt3*(4s+1) and r >= cut+sqrt3*(4s+1), where no kernel of per-axis half-width <= 4s+1 can reach "
+    "across the edge (every contributing voxel lies within Euclidean distance sqrt3*(4s+1))",
+    "'non-increasing in between' is judged along lattice rays from the origin and only when the cutoff ball fits into the box on every "
+    "axis (cut <= min(N)//2; always true for cubic boxes): for min(N)//2 < cut <= N0//2 the unchanged code shows increases of 1e-8..1e-7 "
+    "next to the faces of the short axes (mode='nearest' replication of the ball sticking out of the box; e.g. box (22,8,10), cut 10, "
+    "sigma 2, k=(0,2,-2)->(0,3,-3): +2.2e-8) - counted in observed.soft_executions_with_cutoff_beyond_a_short_axis_rays_not_judged, "
+    "not judged (accepted by the lead); 'depends on the radius' is judged as invariance under swaps of equal axes and single-index "
+    "sign flips when cut+4s+1 < min(N)/2 (DESIGN 4/C12)",
     "band-pass gain >= 0 is judged only where it follows from the statement: equal widths and hp <= lp, or stop band of the inner "
     "filter reached before the outer one starts to fall; band-pass == LP(lp) - LP(hp) is judged always",
 ]
